@@ -228,7 +228,7 @@ def mutate_descriptor(d, rng):
 DEFAULT_WEIGHTS = {
     'metric': 10, 'alert': 6, 'component': 5, 'operational': 3, 'rt': 3, 'context': 7, 'location': 2,
     'descr_update': 4, 'descr_create': 4, 'descr_delete': 3, 'descr_recreate': 2, 'descr_parent_child': 3, 'descr_with_state': 3,
-    'descr_multi': 3,
+    'descr_multi': 3, 'entity_stash': 2, 'entity_write_stashed': 2,
     'empty': 1, 'abort': 2, 'unget': 1, 'reject': 2,
 }
 
@@ -289,6 +289,10 @@ def _gen_kind(kind, rng, mdib, cat, memo):
                 'with_state': rng.random() < 0.8}
     if kind == 'descr_delete':
         pool = [h for h in memo['created'] if h in mdib.descriptions.handle] or cat['leaf_metric'][-3:]
+        # now and then a context descriptor that owns several context states (all of them must go)
+        multi = [h for h in cat['context'] if len(mdib.context_states.descriptor_handle.get(h, [])) >= 2]
+        if multi and len(cat['context']) >= 2 and rng.random() < 0.35:
+            pool = multi
         if not pool:
             return None
         return {'op': 'descr_delete', 'handle': rng.choice(pool)}
@@ -345,6 +349,15 @@ def _gen_kind(kind, rng, mdib, cat, memo):
                 return None
             steps = [['delete', children[0]], ['create', children[0], parent]]
         return {'op': 'descr_multi', 'sub': sub, 'steps': steps, 'iface': 'classic'}
+    if kind == 'entity_stash':
+        pool = cat['metric'] + cat['alert'] + cat['channel'] + cat['vmd']
+        if not pool:
+            return None
+        return {'op': 'entity_stash', 'handle': rng.choice(pool)}
+    if kind == 'entity_write_stashed':
+        if not memo.get('_stash'):
+            return None
+        return {'op': 'entity_write_stashed', 'handle': rng.choice(sorted(memo['_stash']))}
     if kind == 'descr_with_state':
         pool = cat['metric'] + cat['alert']
         if not pool:
@@ -385,6 +398,8 @@ def apply_op(mdib, op: dict, memo: dict | None = None) -> Applied:
     ap = Applied(op, 'commit')
     if 'abort_at' in op:
         ap.expect = 'abort'
+    if op['op'] in ('entity_stash', 'entity_write_stashed'):
+        op = dict(op, _memo=memo)
     try:
         _EXEC[op['op']](mdib, op, rng, ap)
         ap.outcome = 'ok'
@@ -639,6 +654,31 @@ def _x_descr_with_state(mdib, op, rng, ap):
     ap.touched_states.add(h)
 
 
+def _x_entity_stash(mdib, op, rng, ap):
+    """the application keeps an entity for later (no transaction)"""
+    ap.expect = 'empty'
+    memo = op.get('_memo')
+    ent = mdib.entities.by_handle(op['handle'])
+    if memo is not None and ent is not None and not ent.is_multi_state:
+        memo.setdefault('_stash', {})[op['handle']] = ent
+
+
+def _x_entity_write_stashed(mdib, op, rng, ap):
+    """... and writes it in a state transaction after other transactions may have re-versioned its descriptor"""
+    memo = op.get('_memo') or {}
+    ent = memo.get('_stash', {}).pop(op['handle'], None)
+    if ent is None:
+        ap.expect = 'empty'
+        return
+    st = ent.state
+    kind = ('rt' if st.is_realtime_sample_array_metric_state else 'metric' if st.is_metric_state else 'alert' if st.is_alert_state
+            else 'operational' if st.is_operational_state else 'component')
+    mutate_state(st, rng)
+    with getattr(mdib, _TR[kind])() as mgr:
+        mgr.write_entity(ent)
+    ap.touched_states.add(op['handle'])
+
+
 def _x_empty(mdib, op, rng, ap):
     ap.expect = 'empty'
     with getattr(mdib, _TR[op['kind']])():
@@ -692,7 +732,8 @@ def _x_reject(mdib, op, rng, ap):
 _EXEC = {'metric': _x_state, 'alert': _x_state, 'component': _x_state, 'operational': _x_state, 'rt': _x_state,
          'context': _x_context, 'location': _x_location, 'descr_update': _x_descr_update, 'descr_create': _x_descr_create,
          'descr_delete': _x_descr_delete, 'descr_multi': _x_descr_multi, 'descr_parent_child': _x_parent_child, 'descr_with_state': _x_descr_with_state,
-         'empty': _x_empty, 'unget': _x_unget, 'reject': _x_reject}
+         'empty': _x_empty, 'unget': _x_unget, 'reject': _x_reject,
+         'entity_stash': _x_entity_stash, 'entity_write_stashed': _x_entity_write_stashed}
 
 
 def op_shape(ap: Applied):
